@@ -489,6 +489,14 @@ def tour():
         for cfg in ([], ["clone 1 0"], ["clone 8 7"], ["clone 1 0", "clone 8 7"]):
             hs.append(["reset"] + MAKERS["thin.hwl"] + REPLACEMENT + cfg + ["cb 0 thinWithArcMut " + act, "cb 0 thinWithArcMut getMut:70,cnt",
                        "cb 7 thinWithArcMut getMut:71,cnt", "conv 0 fromThin", "isUnique 0", "getMut 0 72", "tryUnique 0", "dropAll"])
+    # arc-swap integration (RefCnt for Arc<T>): an ArcSwapAny cell as one more owner; load guards, load_full, store,
+    # into_inner, interleaved with the uniqueness gates / copy-on-write of the other owners
+    for cfg in ([], ["clone 1 0"], ["clone 1 0", "clone 2 0"]):
+        other = ["isUnique 1", "getMut 1 77", "makeMut 1 78 0", "tryUnwrap 1"] if cfg else []
+        for g in (other or [None]):
+            mid = [g] if g else []
+            hs.append(["reset", "create 0 new 1:1"] + cfg + ["asw new 5 0", "asw load 5", "asw load 5"] + mid + ["asw loadFull 6 5", "drop 6", "asw load 5", "asw into 5", "isUnique 5", "tryUnwrap 5", "dropAll"])
+            hs.append(["reset", "create 0 new 1:1"] + cfg + ["asw new 5 0", "create 9 new 2:2", "asw load 5", "asw store 5 9", "asw load 5"] + mid + ["asw loadFull 6 5", "asw load 5", "drop 6", "asw into 5", "makeMut 5 79 0", "dropAll"])
     # a panic in user code followed by every uniqueness gate: the verdict must still be "sole owner"
     PANICKY = ["makeMut 0 77 1", "makeUnique 0 77 1", "cb 0 rawOffset clone:5,panic", "cb 0 offsetWithArc clone:5,panic",
                "cb 0 borrowWithArc panic", "cb 0 thinWithArcMut getMut:66,panic", "cb 0 thinWithArc clone:5,panic", "unwrapOrClone 1 1"]
